@@ -1,4 +1,4 @@
-From Coq Require Import List QArith Bool Lia.
+From Coq Require Import List QArith Bool Arith Lia.
 From LV Require Import Model.Hyper.
 Import ListNotations.
 Open Scope Q_scope.
@@ -33,6 +33,12 @@ Proof.
   intros H _. injection H as <-. reflexivity.
 Qed.
 
+(* the kernel computes with what it was given: process variance = first entry, length scales = the rest *)
+Theorem radial_set_fields hp k a ls : radial_set hp = Some k -> hp = a :: ls -> r_hp k = hp /\ r_alpha k = a /\ r_ls k = ls.
+Proof.
+  intros H ->. unfold radial_set in H. destruct (valid (a :: ls)); [|discriminate]. injection H as <-. cbn. auto.
+Qed.
+
 Theorem hyper_roundtrip_multitask hp k : multitask_set hp = Some k -> (2 <= length hp)%nat -> multitask_get k = hp.
 Proof.
   destruct hp as [|a rest]; [discriminate|]. intros H Hlen. simpl in Hlen.
@@ -42,8 +48,7 @@ Proof.
   destruct (radial_set [one; last rest NaN]) as [t|] eqn:Et; [|discriminate].
   injection H as <-. unfold multitask_get. cbn [m_alpha m_phys m_task].
   apply hyper_roundtrip_radial in Ep; [|discriminate]. apply hyper_roundtrip_radial in Et; [|discriminate].
-  destruct p as [pa pl]. destruct t as [ta tl]. unfold radial_get in *. cbn [r_alpha r_ls] in *.
-  injection Ep as _ ->. injection Et as _ ->. cbn [last]. f_equal. symmetry. apply app_removelast_last. exact Hr.
+  unfold radial_get in *. rewrite Ep, Et. cbn [tl last]. f_equal. symmetry. apply app_removelast_last. exact Hr.
 Qed.
 
 Lemma valid_app a b : valid (a ++ b) = valid a && valid b.
@@ -73,4 +78,264 @@ Proof.
   destruct (valid (a :: rest)); split; intros X; try discriminate; try reflexivity.
   - apply H in X. discriminate.
   - apply H. reflexivity.
+Qed.
+
+(* ================================================================================================================================
+   LIVE OBJECTS: sequences of assignments (accepted and rejected), read-backs and uses on one kernel object
+   ================================================================================================================================ *)
+
+Lemma xeqb_refl x : xeqb x x = true.
+Proof. destruct x as [q| | |]; cbn; try reflexivity. apply Qeq_bool_iff. reflexivity. Qed.
+Lemma xlist_eqb_refl l : xlist_eqb l l = true.
+Proof. induction l as [|x l IH]; cbn; [reflexivity|]. rewrite xeqb_refl, IH. reflexivity. Qed.
+
+Lemma radial_set_none_iff hp : radial_set hp = None <-> valid hp = false.
+Proof. unfold radial_set. destruct hp as [|a ls]; [cbn; split; discriminate|]. destruct (valid (a :: ls)); split; congruence. Qed.
+
+Lemma radial_set_get hp k : radial_set hp = Some k -> radial_get k = hp.
+Proof. unfold radial_set. destruct hp as [|a ls]; [intros H; injection H as <-; reflexivity|]. destruct (valid (a :: ls)); [|discriminate]. intros H; injection H as <-. reflexivity. Qed.
+
+(* what an assignment does: accepted iff every entry is admissible; accepted -> the vector reads back; rejected -> NOTHING changed *)
+Theorem radial_assign_spec k hp :
+  snd (radial_assign k hp) = valid hp /\
+  (valid hp = true -> radial_get (fst (radial_assign k hp)) = hp) /\
+  (valid hp = false -> fst (radial_assign k hp) = k).
+Proof.
+  unfold radial_assign. destruct (radial_set hp) as [k'|] eqn:E.
+  - assert (V : valid hp = true). { destruct (valid hp) eqn:V; [reflexivity|]. apply radial_set_none_iff in V. congruence. }
+    cbn [fst snd]. split; [symmetry; exact V|split; [intros _; apply (radial_set_get _ _ E)|congruence]].
+  - apply radial_set_none_iff in E. cbn [fst snd]. split; [symmetry; exact E|split; [congruence|reflexivity]].
+Qed.
+
+Theorem radial_rejected_unchanged k hp k' : radial_assign k hp = (k', false) -> k' = k.
+Proof.
+  intros H. destruct (radial_assign_spec k hp) as (Hs & _ & Hu). rewrite H in Hs, Hu. cbn in Hs, Hu. symmetry in Hs. exact (Hu Hs).
+Qed.
+
+(* the invariant of a live radial kernel: it reads back exactly what it computes with, and that is admissible *)
+Definition RCoh (k : radial) : Prop := r_hp k = r_alpha k :: r_ls k /\ valid (r_hp k) = true.
+
+Lemma RCoh_b k : RCoh k -> radial_coherent k = true.
+Proof. intros [H V]. unfold radial_coherent, radial_get. rewrite V, H. rewrite xlist_eqb_refl. reflexivity. Qed.
+
+Lemma radial_set_RCoh hp k : radial_set hp = Some k -> hp <> [] -> RCoh k.
+Proof.
+  intros H Hne. destruct hp as [|a ls]; [congruence|]. unfold radial_set in H. destruct (valid (a :: ls)) eqn:V; [|discriminate].
+  injection H as <-. split; [reflexivity|exact V].
+Qed.
+
+Definition nonempty_sets (ops : list hop) : Prop := Forall (fun o => match o with HSet hp => hp <> [] | _ => True end) ops.
+Definition long_sets (ops : list hop) : Prop := Forall (fun o => match o with HSet hp => (2 <= length hp)%nat | _ => True end) ops.
+
+Lemma radial_assign_RCoh k hp : RCoh k -> hp <> [] -> RCoh (fst (radial_assign k hp)).
+Proof.
+  intros Hk Hne. unfold radial_assign. destruct (radial_set hp) as [k'|] eqn:E; cbn; [exact (radial_set_RCoh _ _ E Hne)|exact Hk].
+Qed.
+
+Lemma radial_step_RCoh k o : RCoh k -> match o with HSet hp => hp <> [] | _ => True end -> RCoh (fst (radial_step k o)).
+Proof.
+  intros Hk Ho. destruct o as [hp| |]; cbn; try exact Hk.
+  pose proof (radial_assign_RCoh k hp Hk Ho) as H. destruct (radial_assign k hp). exact H.
+Qed.
+
+Lemma run_cons {S} (step : S -> hop -> S * hout) k o r :
+  run step k (o :: r) = (fst (run step (fst (step k o)) r), snd (step k o) :: snd (run step (fst (step k o)) r)).
+Proof. cbn. destruct (step k o) as [k1 out]. cbn. destruct (run step k1 r). reflexivity. Qed.
+
+Theorem radial_run_coherent ops : forall k, RCoh k -> nonempty_sets ops -> RCoh (fst (run radial_step k ops)).
+Proof.
+  induction ops as [|o r IH]; intros k Hk Hn; [exact Hk|]. rewrite run_cons. cbn [fst]. inversion Hn as [|? ? Ho Hr]; subst.
+  apply IH; [apply radial_step_RCoh; assumption|exact Hr].
+Qed.
+
+(* the getter after ANY sequence of operations: the last vector that was accepted (the constructor's if none was) *)
+Theorem radial_run_get ops : forall k, radial_get (fst (run radial_step k ops)) = last_accepted (radial_get k) ops.
+Proof.
+  induction ops as [|o r IH]; intros k; [reflexivity|]. rewrite run_cons. cbn [fst]. rewrite IH. destruct o as [hp| |]; cbn [last_accepted]; try reflexivity.
+  destruct (radial_assign_spec k hp) as (_ & Ha & Hu). cbn [radial_step]. destruct (radial_assign k hp) as [k' ok] eqn:E. cbn [fst] in *.
+  destruct (valid hp); [rewrite (Ha eq_refl)|rewrite (Hu eq_refl)]; reflexivity.
+Qed.
+
+Lemma run_app {S} (step : S -> hop -> S * hout) ops1 : forall k ops2,
+  run step k (ops1 ++ ops2) = (fst (run step (fst (run step k ops1)) ops2), snd (run step k ops1) ++ snd (run step (fst (run step k ops1)) ops2)).
+Proof.
+  induction ops1 as [|o r IH]; intros k ops2; [cbn; destruct (run step k ops2); reflexivity|].
+  change ((o :: r) ++ ops2) with (o :: (r ++ ops2)). rewrite !run_cons. rewrite IH. cbn [fst snd]. reflexivity.
+Qed.
+
+Lemma run_length {S} (step : S -> hop -> S * hout) ops : forall k, length (snd (run step k ops)) = length ops.
+Proof. induction ops as [|o r IH]; intros k; [reflexivity|]. rewrite run_cons. cbn. rewrite IH. reflexivity. Qed.
+
+(* every read-back in a history shows the last vector accepted before it; every use in between is the use of that kernel *)
+Theorem radial_history_readback k ops1 ops2 :
+  nth (length ops1) (snd (run radial_step k (ops1 ++ HGet :: ops2))) (OSet false) = OGet (last_accepted (radial_get k) ops1).
+Proof.
+  rewrite run_app. cbn [snd]. rewrite app_nth2; rewrite run_length; [|lia]. rewrite Nat.sub_diag. rewrite run_cons. cbn [snd nth radial_step].
+  rewrite radial_run_get. reflexivity.
+Qed.
+
+Theorem radial_history_probe k ops1 ops2 : RCoh k -> nonempty_sets ops1 ->
+  exists a ls, last_accepted (radial_get k) ops1 = a :: ls /\
+  nth (length ops1) (snd (run radial_step k (ops1 ++ HProbe :: ops2))) (OSet false) = OProbe a true.
+Proof.
+  intros Hk Hn. pose proof (radial_run_coherent ops1 k Hk Hn) as Hc. pose proof (radial_run_get ops1 k) as Hg.
+  set (k1 := fst (run radial_step k ops1)) in *. exists (r_alpha k1), (r_ls k1). split.
+  - rewrite <- Hg. unfold radial_get. exact (proj1 Hc).
+  - rewrite run_app. cbn [snd]. rewrite app_nth2; rewrite run_length; [|lia]. rewrite Nat.sub_diag. rewrite run_cons. cbn [snd nth radial_step].
+    fold k1. rewrite (RCoh_b _ Hc). reflexivity.
+Qed.
+
+(* the model satisfies the specification that the correspondence evaluates on the implementation's own outputs *)
+Theorem radial_model_meets_spec ops : forall k, RCoh k -> nonempty_sets ops ->
+  spec_outs true (radial_get k) ops (snd (run radial_step k ops)) = true.
+Proof.
+  induction ops as [|o r IH]; intros k Hk Hn; [reflexivity|]. inversion Hn as [|? ? Ho Hr]; subst. rewrite run_cons. cbn [snd].
+  pose proof (radial_step_RCoh k o Hk Ho) as Hk1. destruct o as [hp| |]; cbn [radial_step] in *.
+  - destruct (radial_assign_spec k hp) as (Hs & Ha & Hu). destruct (radial_assign k hp) as [k' ok] eqn:E. cbn [fst snd] in *. cbn [spec_outs].
+    rewrite Hs. rewrite eqb_reflx. cbn [andb]. destruct (valid hp) eqn:V.
+    + rewrite <- (Ha eq_refl). apply IH; assumption.
+    + rewrite (Hu eq_refl) in *. apply IH; assumption.
+  - cbn [fst snd spec_outs]. destruct Hk as [H V]. unfold radial_get in *. rewrite V. cbn [andb].
+    assert (M : match r_hp k with [] => true | _ :: _ => xlist_eqb (r_hp k) (r_hp k) end = true) by (destruct (r_hp k); [reflexivity|apply xlist_eqb_refl]).
+    rewrite M. cbn [andb]. apply IH; [split; assumption|exact Hr].
+  - cbn [fst snd spec_outs]. rewrite (RCoh_b _ Hk). cbn [andb]. destruct Hk as [H V]. unfold radial_get in *. rewrite H at 1. rewrite xeqb_refl. cbn [andb].
+    apply IH; [split; assumption|exact Hr].
+Qed.
+
+(* ---- the multitask tensor kernel as a live object ---- *)
+Definition MCoh (k : multitask) : Prop :=
+  entry_ok (m_alpha k) = true /\ RCoh (m_phys k) /\ RCoh (m_task k) /\ r_alpha (m_phys k) = one /\ r_alpha (m_task k) = one
+  /\ length (r_ls (m_task k)) = 1%nat.
+
+Lemma component_set ls p : radial_set (one :: ls) = Some p -> RCoh p /\ r_alpha p = one /\ r_ls p = ls.
+Proof.
+  intros H. split; [apply (radial_set_RCoh _ _ H); discriminate|]. destruct (radial_set_fields _ _ one ls H eq_refl) as (_ & Ha & Hl). auto.
+Qed.
+
+Lemma MCoh_b k : MCoh k -> multitask_coherent k = true.
+Proof.
+  intros (Ha & Hp & Ht & Hp1 & Ht1 & Hl). unfold multitask_coherent. rewrite Ha, (RCoh_b _ Hp), (RCoh_b _ Ht), Hp1, Ht1, Hl. reflexivity.
+Qed.
+
+Lemma multitask_assign_MCoh k hp : MCoh k -> MCoh (fst (multitask_assign k hp)).
+Proof.
+  intros Hk. pose proof Hk as (Ha & Hp & Ht & Hp1 & Ht1 & Hl). unfold multitask_assign. destruct hp as [|a rest]; [exact Hk|].
+  destruct (entry_ok a) eqn:Ea; [|exact Hk].
+  destruct (radial_set (one :: removelast rest)) as [p|] eqn:Ep.
+  - destruct (component_set _ _ Ep) as (Cp & Cp1 & _).
+    destruct (radial_set [one; last rest NaN]) as [t|] eqn:Et.
+    + destruct (component_set _ _ Et) as (Ct & Ct1 & Ctl). cbn [fst]. unfold MCoh. cbn [m_alpha m_phys m_task]. rewrite Ctl. repeat split; assumption || reflexivity || apply Cp || apply Ct.
+    + cbn [fst]. unfold MCoh. cbn [m_alpha m_phys m_task]. repeat split; assumption || apply Cp || apply Ht.
+  - cbn [fst]. unfold MCoh. cbn [m_alpha m_phys m_task]. repeat split; assumption || apply Hp || apply Ht.
+Qed.
+
+Lemma multitask_assign_vs_set k hp :
+  match multitask_set hp with
+  | Some k' => multitask_assign k hp = (k', true)
+  | None => snd (multitask_assign k hp) = false
+  end.
+Proof.
+  unfold multitask_set, multitask_assign. destruct hp as [|a rest]; [reflexivity|]. destruct (entry_ok a); [|reflexivity].
+  destruct (radial_set (one :: removelast rest)); [|reflexivity]. destruct (radial_set [one; last rest NaN]); reflexivity.
+Qed.
+
+Lemma multitask_set_MCoh hp k : multitask_set hp = Some k -> MCoh k.
+Proof.
+  unfold multitask_set. destruct hp as [|a rest]; [discriminate|]. destruct (entry_ok a) eqn:Ea; [|discriminate].
+  destruct (radial_set (one :: removelast rest)) as [p|] eqn:Ep; [|discriminate].
+  destruct (radial_set [one; last rest NaN]) as [t|] eqn:Et; [|discriminate]. intros H; injection H as <-.
+  destruct (component_set _ _ Ep) as (Cp & Cp1 & _). destruct (component_set _ _ Et) as (Ct & Ct1 & Ctl).
+  unfold MCoh. cbn [m_alpha m_phys m_task]. rewrite Ctl. repeat split; assumption || reflexivity || apply Cp || apply Ct.
+Qed.
+
+Lemma multitask_set_none_iff hp : (2 <= length hp)%nat -> (multitask_set hp = None <-> valid hp = false).
+Proof.
+  intros Hl. rewrite (hyper_rejects_multitask hp Hl). rewrite <- radial_set_none_iff. symmetry. apply hyper_rejects. destruct hp; [cbn in Hl; lia|discriminate].
+Qed.
+
+(* an assignment on a live tensor kernel: accepted iff every entry is admissible; accepted -> the vector reads back *)
+Theorem multitask_assign_spec k hp : (2 <= length hp)%nat ->
+  snd (multitask_assign k hp) = valid hp /\ (valid hp = true -> multitask_get (fst (multitask_assign k hp)) = hp).
+Proof.
+  intros Hl. pose proof (multitask_assign_vs_set k hp) as H. pose proof (multitask_set_none_iff hp Hl) as Hn.
+  destruct (multitask_set hp) as [k'|] eqn:E.
+  - rewrite H. cbn [fst snd]. assert (V : valid hp = true). { destruct (valid hp); [reflexivity|]. destruct Hn as [_ Hn]. specialize (Hn eq_refl). discriminate. }
+    split; [symmetry; exact V|intros _; exact (hyper_roundtrip_multitask hp k' E Hl)].
+  - rewrite H. destruct Hn as [Hn _]. rewrite (Hn eq_refl). split; [reflexivity|discriminate].
+Qed.
+
+(* a rejected assignment whose PROCESS VARIANCE is the inadmissible entry changes nothing ... *)
+Theorem multitask_rejected_bad_alpha_unchanged k a rest : entry_ok a = false -> multitask_assign k (a :: rest) = (k, false).
+Proof. intros H. unfold multitask_assign. rewrite H. reflexivity. Qed.
+
+(* ... but a vector rejected for one of its length scales has by then been taken IN PART (process variance; physical length scales when the
+   task length scale is the inadmissible one): "a rejected assignment leaves the object unchanged" is false for the tensor kernel *)
+Theorem multitask_rejected_unchanged_refuted :
+  exists k hp k', multitask_set [Fin (3#2); Fin (1#2); Fin 2; Fin (1#4)] = Some k /\ multitask_assign k hp = (k', false) /\
+                  multitask_get k' <> multitask_get k /\ multitask_get k' <> hp.
+Proof.
+  exists {| m_alpha := Fin (3#2); m_phys := {| r_hp := [one; Fin (1#2); Fin 2]; r_alpha := one; r_ls := [Fin (1#2); Fin 2] |};
+            m_task := {| r_hp := [one; Fin (1#4)]; r_alpha := one; r_ls := [Fin (1#4)] |} |}.
+  exists [Fin 3; Fin 1; Fin 1; Fin 0].
+  exists {| m_alpha := Fin 3; m_phys := {| r_hp := [one; Fin 1; Fin 1]; r_alpha := one; r_ls := [Fin 1; Fin 1] |};
+            m_task := {| r_hp := [one; Fin (1#4)]; r_alpha := one; r_ls := [Fin (1#4)] |} |}.
+  vm_compute. repeat split; intros H; discriminate H.
+Qed.
+
+Lemma multitask_step_MCoh k o : MCoh k -> MCoh (fst (multitask_step k o)).
+Proof.
+  intros Hk. destruct o as [hp| |]; cbn; try exact Hk. pose proof (multitask_assign_MCoh k hp Hk) as H. destruct (multitask_assign k hp). exact H.
+Qed.
+
+(* whatever is assigned, accepted or rejected, in whatever order: the tensor kernel stays a kernel that computes with the admissible
+   hyperparameters it reads back *)
+Theorem multitask_run_coherent ops : forall k, MCoh k -> MCoh (fst (run multitask_step k ops)).
+Proof.
+  induction ops as [|o r IH]; intros k Hk; [exact Hk|]. rewrite run_cons. cbn [fst]. apply IH. apply multitask_step_MCoh. exact Hk.
+Qed.
+
+Lemma MCoh_get_valid k : MCoh k -> valid (multitask_get k) = true /\ exists r, multitask_get k = m_alpha k :: r.
+Proof.
+  intros (Ha & (Hp & Vp) & (Ht & Vt) & Hp1 & Ht1 & Hl). unfold multitask_get, radial_get. split; [|eexists; reflexivity].
+  rewrite Hp, Ht in *. cbn [tl]. destruct (r_ls (m_task k)) as [|lt [|? ?]]; try discriminate Hl. cbn [last].
+  change (m_alpha k :: r_ls (m_phys k) ++ [lt]) with ([m_alpha k] ++ r_ls (m_phys k) ++ [lt]). rewrite !valid_app.
+  unfold valid in *. cbn [forallb] in *. rewrite Ha. apply andb_true_iff in Vp. destruct Vp as [_ Vp]. rewrite Vp.
+  apply andb_true_iff in Vt. destruct Vt as [_ Vt]. rewrite Vt. reflexivity.
+Qed.
+
+Theorem multitask_model_meets_spec ops : forall k cur, MCoh k -> long_sets ops -> (cur = [] \/ cur = multitask_get k) ->
+  spec_outs false cur ops (snd (run multitask_step k ops)) = true.
+Proof.
+  induction ops as [|o r IH]; intros k cur Hk Hn Hc; [reflexivity|]. inversion Hn as [|? ? Ho Hr]; subst. rewrite run_cons. cbn [snd].
+  pose proof (multitask_step_MCoh k o Hk) as Hk1. destruct (MCoh_get_valid k Hk) as (Vg & rg & Eg). destruct o as [hp| |]; cbn [multitask_step] in *.
+  - destruct (multitask_assign_spec k hp Ho) as (Hs & Ha). destruct (multitask_assign k hp) as [k' ok] eqn:E. cbn [fst snd] in *. cbn [spec_outs].
+    rewrite Hs. rewrite eqb_reflx. cbn [andb]. destruct (valid hp) eqn:V.
+    + apply IH; [exact Hk1|exact Hr|right; symmetry; exact (Ha eq_refl)].
+    + apply IH; [exact Hk1|exact Hr|left; reflexivity].
+  - cbn [fst snd spec_outs]. rewrite Vg. cbn [andb].
+    assert (M : match cur with [] => true | _ :: _ => xlist_eqb (multitask_get k) cur end = true).
+    { destruct Hc as [->| ->]; [reflexivity|]. destruct (multitask_get k); [reflexivity|apply xlist_eqb_refl]. }
+    rewrite M. cbn [andb]. apply IH; [exact Hk|exact Hr|right; reflexivity].
+  - cbn [fst snd spec_outs]. rewrite (MCoh_b _ Hk). cbn [andb].
+    assert (M : match cur with a :: _ => xeqb (m_alpha k) a | [] => true end = true).
+    { destruct Hc as [->| ->]; [reflexivity|]. rewrite Eg. apply xeqb_refl. }
+    rewrite M. cbn [andb]. apply IH; [exact Hk|exact Hr|exact Hc].
+Qed.
+
+(* from construction on *)
+Theorem radial_life_coherent hp0 k ops : radial_set hp0 = Some k -> hp0 <> [] -> nonempty_sets ops ->
+  RCoh (fst (run radial_step k ops)) /\ radial_get (fst (run radial_step k ops)) = last_accepted hp0 ops.
+Proof.
+  intros H Hne Hn. split; [apply radial_run_coherent; [exact (radial_set_RCoh _ _ H Hne)|exact Hn]|]. rewrite radial_run_get, (radial_set_get _ _ H). reflexivity.
+Qed.
+
+Theorem multitask_life_coherent hp0 k ops : multitask_set hp0 = Some k ->
+  MCoh (fst (run multitask_step k ops)) /\ valid (multitask_get (fst (run multitask_step k ops))) = true.
+Proof.
+  intros H. pose proof (multitask_run_coherent ops k (multitask_set_MCoh _ _ H)) as Hc. split; [exact Hc|exact (proj1 (MCoh_get_valid _ Hc))].
+Qed.
+
+Theorem valid_false_iff_bad hp : valid hp = false <-> exists h, In h hp /\ Bad h.
+Proof.
+  destruct hp as [|a ls]; [cbn; split; [discriminate|intros (h & [] & _)]|]. rewrite <- radial_set_none_iff. apply hyper_rejects. discriminate.
 Qed.
